@@ -11,8 +11,8 @@ import (
 func init() {
 	register(&propInfo{
 		ID:          "C20",
-		Explanation: "Typestate, lockset and path analysis of the httpio reader side channel: (R20.1) the channel that signals 'stream consumed' is closed only inside sync.Once-guarded closures of one Once object, although Read and Close may be invoked any number of times; (R20.2) upload handler and parameter decoder each perform lookup-or-create of the hand-off channel inside one critical section of the same mutex, keyed by the parsed id, create only on the not-found branch, and meet on that channel with opposite directions, each inside a select that also watches its context; (R20.3) the encoder draws a fresh id on every invocation (inside the encoder closure), uploads the caller's reader to a URL derived from that id and returns that same id as the parameter; (R20.4) the upload handler reports success only after the consumed-signal was received, and no path falls off the end (implicit 200) without it.",
-		NotDecided:  "Byte-exactness of the stream and EOF stickiness (values through net/http), arrival-order schedules themselves (only the symmetric locked rendezvous that makes both orders work), and the upload handler carrying on after a malformed id (observation recorded in DESIGN.md).",
+		Explanation: "Typestate, lockset and path analysis of the httpio reader side channel: (R20.1) the channel that signals 'stream consumed' is closed only inside sync.Once-guarded closures of one Once object, although Read and Close may be invoked any number of times; (R20.2) upload handler and parameter decoder each perform lookup-or-create of the hand-off channel inside one critical section of the same mutex, keyed by the parsed id, create only on the not-found branch, and meet on that channel with opposite directions, each inside a select that also watches its context; (R20.3) the encoder draws a fresh id on every invocation (inside the encoder closure), uploads the caller's reader to a URL derived from that id and returns that same id as the parameter; (R20.4) the upload handler reports success only after the consumed-signal was received, and no path falls off the end (implicit 200) without it. R20.1 also requires every use of the wrapped body outside the signalling Read/Close to raise the signal itself; (R20.7) the inner read stands behind a test of a wrapper field that every failing read sets, so end-of-file is reported again without touching the body that net/http closes once the signal is raised.",
+		NotDecided:  "Byte-exactness of the stream (values through net/http), arrival-order schedules themselves (only the symmetric locked rendezvous that makes both orders work), and the upload handler carrying on after a malformed id (observation recorded in DESIGN.md).",
 		Assumptions: []string{"sync.Once.Do runs its argument at most once per Once object", "the wrapper type is the struct in httpio embedding io.ReadCloser with a chan struct{} field"},
 		Run:         runC20,
 	})
@@ -233,6 +233,95 @@ func runC20(c *Ctx) {
 				}
 			}
 			c.check(okr, "R20.1", construct+" on every failing read", p.pos(m.Pos()), "every error (incl. EOF) raises the signal", "a failing read (EOF) can return without raising the consumed signal: the upload never completes for handlers that read to EOF without closing")
+		}
+	}
+
+	// ---- R20.7: end-of-file is sticky. Raising the consumed signal lets the upload handler return, and
+	// net/http then closes the request body: a Read of that body afterwards answers "invalid Read on
+	// closed Body", not io.EOF. So once the wrapped body has reported an error (EOF included) the wrapper
+	// must never ask it again: the inner Read stands behind a test of a wrapper field that the failing
+	// branch sets before it returns.
+	c.rule("R20.7", "once the wrapped body has returned an error (EOF), the wrapper's Read reports it again on every further call without reading the body (which net/http closes as soon as the consumed signal is raised)")
+	{
+		m := p.SSA.LookupMethod(types.NewPointer(twrc), p.Httpio.Pkg, "Read")
+		construct := fmt.Sprintf("(*%s).Read: end-of-file is sticky", twrc.Obj().Name())
+		var readCall *ssa.Call
+		if m != nil && m.Synthetic == "" {
+			allInstrs(m, func(in ssa.Instruction) {
+				if ci, ok := in.(*ssa.Call); ok && ci.Common().IsInvoke() && ci.Common().Method.Name() == "Read" {
+					readCall = ci
+				}
+			})
+		}
+		if readCall == nil {
+			c.und("R20.7", construct, "-", "the wrapper's Read (with its read of the wrapped body) was not found")
+		} else {
+			// the state field: tested (nil / false) on the way to the inner read
+			st := twrc.Underlying().(*types.Struct)
+			var state *types.Var
+			for _, cf := range expandConds(impliedConds(readCall.Block())) {
+				for i := 0; i < st.NumFields(); i++ {
+					f := st.Field(i)
+					if f.Embedded() {
+						continue
+					}
+					switch x := cf.Cond.(type) {
+					case *ssa.BinOp:
+						if x.Op != token.EQL && x.Op != token.NEQ {
+							continue
+						}
+						other := x.X
+						if isNilConst(x.X) {
+							other = x.Y
+						} else if !isNilConst(x.Y) {
+							continue
+						}
+						if _, ok := loadsField(other, f); ok && (x.Op == token.EQL) == cf.True {
+							state = f
+						}
+					default:
+						if _, ok := loadsField(cf.Cond, f); ok && !cf.True {
+							state = f
+						}
+					}
+				}
+			}
+			if state == nil {
+				c.bad("R20.7", construct, c.ipos(readCall), "the wrapped body is read on every call: after the first error (EOF) raised the consumed signal, net/http closes the body, and a handler that reads past end-of-file gets 'http: invalid Read on closed Body' instead of io.EOF on the next Read")
+			} else {
+				// every failing read records the state before returning
+				sets := func(in ssa.Instruction) bool {
+					s, ok := in.(*ssa.Store)
+					if !ok {
+						return false
+					}
+					fa, ok := s.Addr.(*ssa.FieldAddr)
+					return ok && fieldOfAddr(fa) == state && !isNilConst(s.Val) && constKind(s.Val) != 2
+				}
+				okAll := false
+				for _, ref := range *readCall.Referrers() {
+					ex, ok := ref.(*ssa.Extract)
+					if !ok || ex.Index != 1 {
+						continue
+					}
+					for _, r2 := range *ex.Referrers() {
+						bo, ok := r2.(*ssa.BinOp)
+						if !ok || !(isNilConst(bo.X) || isNilConst(bo.Y)) {
+							continue
+						}
+						for _, r3 := range *bo.Referrers() {
+							if iff, ok := r3.(*ssa.If); ok {
+								fail := iff.Block().Succs[0]
+								if bo.Op == token.EQL {
+									fail = iff.Block().Succs[1]
+								}
+								okAll = reachFromBlock(fail, isReturn, sets) == nil
+							}
+						}
+					}
+				}
+				c.check(okAll, "R20.7", construct, c.ipos(readCall), "the inner read stands behind a test of "+state.Name()+", which every failing read sets", "the field "+state.Name()+" guards the inner read but a failing read can return without setting it: the next Read asks the (by then closed) body again")
+			}
 		}
 	}
 
